@@ -99,6 +99,7 @@ fn main() {
     assert!(cfg!(target_endian = "little") && cfg!(target_pointer_width = "64"));
     std::panic::set_hook(Box::new(|_| {}));
     let ctx = Ctx { seed: a[2].parse().expect("seed"), thorough: a[3] == "thorough", dir: a[4].clone() };
+    util::install_crash_reporter(&ctx.dir, &a[1]);
     match a[1].as_str() {
         "date" => s_date::gen_date(&ctx),
         "datecache" => s_date::gen_cache(&ctx),
